@@ -49,7 +49,8 @@ pub fn answer<R: Rng>(prim: &str, rng: &mut R, user: &mut dyn FnMut(u64, &mut R)
             list(&v)
         }
         "chooseWeighted" => {
-            let ws: Vec<u32> = if t.len() < 2 || t[1].is_empty() { vec![] } else { t[1].split(',').map(|x| x.parse().expect("w")).collect() };
+            // weights are `usize`, as in DynWeighted (the only caller of choose_weighted in the repository)
+            let ws: Vec<usize> = if t.len() < 2 || t[1].is_empty() { vec![] } else { t[1].split(',').map(|x| x.parse().expect("w")).collect() };
             let idx: Vec<usize> = (0..ws.len()).collect();
             match idx.choose_weighted(rng, |i| ws[*i]) {
                 Ok(i) => format!("n {i}"),
